@@ -166,6 +166,17 @@ def spec_call(engine, st, name, node):
         S = domain_of(engine, engine.deref(st, engine.eval(st, node.args[0])))
         sz = engine.deref(st, engine.eval(st, node.args[1]))
         return V(Int, [engine.prodset(S, sz)])
+    if name in ("colsum", "colcount"):
+        # colsum(rows, field, t) = sum of rows[p][field] for p < t;  colcount(rows, field, k, t) = #{p < t : rows[p][field] == k}
+        from . import colsum as CS
+
+        SUM, CNT = CS.theory(engine)
+        rows = engine.deref(st, engine.eval(st, node.args[0]))
+        fld = node.args[1].value
+        col = CS.column(engine, st, rows, fld)
+        if name == "colsum":
+            return V(Int, [SUM(col, engine.num(engine.eval(st, node.args[2])))])
+        return V(Int, [CNT(col, engine.num(engine.eval(st, node.args[2])), engine.num(engine.eval(st, node.args[3])))])
     if name == "get":
         # get(d, k, default): total map lookup
         d = engine.deref(st, engine.eval(st, node.args[0]))
